@@ -7,6 +7,7 @@ package c11
 
 import (
 	"context"
+	"errors"
 	"encoding/hex"
 	"fmt"
 	"math/rand"
@@ -224,12 +225,26 @@ type members struct {
 	hosts   []*fakenet.Host
 	peerMap map[peer.ID]cluster.NodeIdx
 	names   map[string]int // p2p.PeerName -> node index (log attribution)
+
+	hasNamesakes bool
+	namesakes    [2]int
 }
 
-func newMembers(rng *rand.Rand, n int) (*members, error) {
+// newMembers draws n operator identities. With namesakes set, two PRNG-chosen operators get peer ids
+// that map to the same p2p.PeerName: the display name is a lossy hash with a few thousand values,
+// so such clusters exist (birthday collision) and anything keyed by the name instead of the peer id
+// confuses the two (seeded change C11-r7).
+func newMembers(rng *rand.Rand, n int, namesakes bool) (*members, error) {
 	m := &members{net: fakenet.New(), peerMap: map[peer.ID]cluster.NodeIdx{}, names: map[string]int{}}
-	for i := 0; i < n; i++ {
-		var key *k1.PrivateKey
+	twinA, twinB := -1, -1
+	if namesakes && n >= 2 {
+		pm := rng.Perm(n)
+		twinA, twinB = pm[0], pm[1]
+		if twinA > twinB {
+			twinA, twinB = twinB, twinA
+		}
+	}
+	draw := func() (*k1.PrivateKey, peer.ID, error) {
 		for {
 			b := make([]byte, 32)
 			rng.Read(b)
@@ -237,13 +252,29 @@ func newMembers(rng *rand.Rand, n int) (*members, error) {
 			if overflow := sc.SetByteSlice(b); overflow || sc.IsZero() {
 				continue
 			}
-			key = k1.NewPrivateKey(&sc)
+			key := k1.NewPrivateKey(&sc)
+			id, err := p2p.PeerIDFromKey(key.PubKey())
 
-			break
+			return key, id, err
 		}
-		id, err := p2p.PeerIDFromKey(key.PubKey())
+	}
+	for i := 0; i < n; i++ {
+		key, id, err := draw()
 		if err != nil {
 			return nil, err
+		}
+		if i == twinB {
+			want := p2p.PeerName(m.ids[twinA])
+			for tries := 0; p2p.PeerName(id) != want || id == m.ids[twinA]; tries++ {
+				if tries > 400000 {
+					return nil, errors.New("no namesake peer id found")
+				}
+				if key, id, err = draw(); err != nil {
+					return nil, err
+				}
+			}
+			m.namesakes = [2]int{twinA, twinB}
+			m.hasNamesakes = true
 		}
 		m.keys = append(m.keys, key)
 		m.ids = append(m.ids, id)
@@ -280,10 +311,15 @@ func runFakenetCeremony(c *kit.Case, cer ceremony, reg *keyRegistry, logs *faken
 	r.Count("ceremonies_started", 1)
 	r.Count("ceremonies_started_"+cer.Engine, 1)
 
-	m, err := newMembers(rng, n)
+	// half of the plain ceremonies run with two operators whose peer ids share a display name
+	m, err := newMembers(rng, n, cer.Focus == "" && c.Idx%2 == 0)
 	if err != nil {
 		r.Inconclusive("case %d: identities: %v", c.Idx, err)
 		return
+	}
+	if m.hasNamesakes {
+		r.Count("ceremonies_with_namesake_operators", 1)
+		r.Count("ceremonies_with_namesake_operators_"+cer.Engine, 1)
 	}
 	session := make([]byte, 32)
 	rng.Read(session)
